@@ -17,18 +17,25 @@ instance dictionaries, lists, dicts, sets, tuples and the internals of keyed con
 import itertools
 
 
-def snapshot(root):
-    """identity + content of the object graph reachable from root"""
+def snapshot(root, ids=True):
+    """identity + content (ids=False: content and sharing only) of the object graph reachable from root"""
     seen = {}
     order = []
+    import builtins
+    real_id = builtins.id
+
+    def id(o):  # noqa: A001
+        return real_id(o) if ids else 0
 
     def walk(o):
-        if isinstance(o, (int, float, str, bytes, bool, type(None), type, type(len), type(lambda: 0))):
+        if isinstance(o, (type, type(len), type(lambda: 0))):
+            return ("atom", getattr(o, "__qualname__", "callable").split(".")[-1] if not ids else repr(o))
+        if isinstance(o, (int, float, str, bytes, bool, type(None))):
             return ("atom", repr(o))
-        if id(o) in seen:
-            return ("ref", seen[id(o)])
+        if real_id(o) in seen:
+            return ("ref", seen[real_id(o)])
         n = len(order)
-        seen[id(o)] = n
+        seen[real_id(o)] = n
         order.append(None)
         if isinstance(o, (list, tuple)):
             node = (type(o).__name__, id(o), [walk(x) for x in o])
@@ -47,15 +54,24 @@ def snapshot(root):
     return order
 
 
-def build_zoo():
+def build_zoo(frozen=False):
     from typing import Any, Dict, List, Optional, Set, Tuple, Union
 
     try:
         from typing import Literal
     except ImportError:  # pragma: no cover
         Literal = None
-    from spec_classes import Attr, spec_class, spec_property
+    from spec_classes import Attr, spec_property
+    from spec_classes import spec_class as _spec_class
     from spec_classes.types import KeyedList, KeyedSet
+
+    def spec_class(*a, **kw):
+        """the decorator, with frozen=True added to every class of a frozen zoo"""
+        if a and isinstance(a[0], type):
+            return _spec_class(frozen=True)(a[0]) if frozen else _spec_class(a[0])
+        if frozen:
+            kw = dict(kw, frozen=True)
+        return _spec_class(*a, **kw)
 
     class Flaky:
         """a value whose deep copy fails (an aborted copy of whatever holds it)"""
@@ -282,3 +298,111 @@ def explore(chk, extra, mode):
                 "attributes with item preparer, nested holders); every generated helper by introspection x assorted argument pool; "
                 + ("C01: receiver, arguments and keyword values unchanged whether the call returns or raises"
                    if mode == "C01" else "C04: after an exception receiver, arguments and keyword values unchanged")}
+
+
+def explore_frozen(chk, extra):
+    """C07 on the class zoo: every class declared frozen=True next to its non-frozen twin.
+    The same call (same method, same argument choices) is made on a frozen instance and on the
+    twin's instance:
+      * assignment, deletion and _inplace=True calls on the frozen instance change nothing;
+      * calls without _inplace leave the frozen receiver unchanged, return a distinct object,
+        and have the twin's outcome: same exception class, or a result with the same content
+        and sharing structure (class names, attribute names, values)."""
+    import random
+    zf = build_zoo(frozen=True)
+    zt = build_zoo(frozen=False)
+    rng = chk.rng
+    n = 1500 if chk.tier == "quick" else 25000
+    tried = raised = 0
+    reported = set()
+    for _ in range(n):
+        ci = rng.randrange(len(zf[0]))
+        if zf[0][ci].__name__ in ("RegChild",):
+            continue
+        seed = rng.random()
+        runs = []
+        for zoo in (zf, zt):
+            r = random.Random(seed)
+            classes, make, pool, _ = zoo
+            cls = classes[ci]
+            try:
+                obj = make(cls)
+            except Exception:
+                runs = None
+                break
+            for nm in ("total",):
+                try:
+                    getattr(obj, nm)
+                except Exception:
+                    pass
+            values = pool()
+            calls = calls_for(obj)
+            kind = r.random()
+            inplace = r.random() < 0.35
+            args, kw = [], {}
+            names = list(type(obj).__spec_class__.attrs)
+            if kind < 0.08:
+                name, vi = r.choice(names), r.randrange(len(values))
+                args = [values[vi]]
+                label, mode = f"{cls.__name__}.{name} = <{type(values[vi]).__name__}>", "mutate"
+                fn = (lambda o=obj, nm=name, v=values[vi]: setattr(o, nm, v))
+            elif kind < 0.12:
+                name = r.choice(names)
+                label, mode = f"del {cls.__name__}.{name}", "mutate"
+                fn = (lambda o=obj, nm=name: delattr(o, nm))
+            else:
+                m, arity = calls[r.randrange(len(calls))]
+                held = {type(x).__name__ for x in vars(obj).values()}
+                like = [i for i, v in enumerate(values) if type(v).__name__ in held] or list(range(len(values)))
+
+                def pickv():
+                    return values[r.choice(like)] if r.random() < 0.6 else values[r.randrange(len(values))]
+                args = [pickv() for _ in range(arity)]
+                if m in ("update", "transform") or r.random() < 0.2:
+                    for nm in r.sample(names, min(len(names), r.choice([1, 1, 2]))):
+                        kw[nm] = pickv()
+                if inplace:
+                    kw["_inplace"] = True
+                label = f"{cls.__name__}.{m}({', '.join(type(a).__name__ for a in args)}{', ' if args and kw else ''}{', '.join(sorted(kw))})"
+                mode = "mutate" if inplace else "cow"
+                fn = (lambda o=obj, mm=m, a=args, k=kw: getattr(o, mm)(*a, **k))
+            before = snapshot(obj)
+            outcome, res = "returned", None
+            try:
+                res = fn()
+            except BaseException as e:
+                if isinstance(e, (KeyboardInterrupt, SystemExit)):
+                    raise
+                outcome = type(e).__name__
+            runs.append((obj, label, mode, before, snapshot(obj), outcome, res))
+        if not runs:
+            continue
+        (fo, label, mode, fb, fa, fout, fres), (to, _, _, _, _, tout, tres) = runs
+        tried += 1
+        raised += fout != "returned"
+        problem = None
+        if fa != fb:
+            problem = f"changed the frozen receiver ({fout})"
+        elif mode == "cow":
+            if fout != tout and not (fout != "returned" and tout != "returned"):
+                problem = f"outcome {fout} on the frozen class, {tout} on its non-frozen twin"
+            elif fout == "returned":
+                if fres is fo and tres is not to:
+                    problem = "returned the frozen receiver itself where the twin returns a copy"
+                elif snapshot(fres, ids=False) != snapshot(tres, ids=False):
+                    problem = "result differs from the result on the non-frozen twin"
+        key = label.split("(")[0].split(" = ")[0]
+        if problem and key not in reported:
+            reported.add(key)
+            chk.violation(f"{label}: {problem}",
+                          {"call": label, "mode": mode, "frozen_outcome": fout, "twin_outcome": tout,
+                           "frozen_result": repr(snapshot(fres, ids=False))[:2000] if fout == "returned" else None,
+                           "twin_result": repr(snapshot(tres, ids=False))[:2000] if tout == "returned" else None},
+                          sig={"kind": "wide-frozen", "call": key})
+            if len(reported) >= 3:
+                break
+    extra["wide_frozen_twin_exploration"] = {
+        "paired_calls": tried, "raised_on_frozen": raised,
+        "rule": "implementation only: class zoo declared frozen=True next to its non-frozen twin; the same call on both; "
+                "in-place calls / assignment / deletion change nothing on the frozen instance; copy-on-write calls leave it "
+                "unchanged and have the twin's outcome (exception or structurally equal result)"}
